@@ -33,6 +33,20 @@ CHECKS = {
             "produces for the same program: function position then arguments left to right, collection elements left to right, "
             "let/loop initialisers in order, finally after body and handler, nothing on untaken branches, each marker once.",
             LANG_NOTE, "5/C02"),
+    "C15": ("Opt, Opt_MC, Opt_Trace",
+            "TLA+ relation Opt.tla (the allowed rewrites) model-checked for meaning preservation on a small Python-like "
+            "language (Opt_MC); every (before, after) AST pair of the real optimizer validated by TLC (Opt_Trace); programs "
+            "executed with the pass on and off",
+            "TLC checks on a small language with effects, identity/equality and early exits that every pair related by the "
+            "allowed rewrites has the same result, exception and effect order, and rejects the relation extended by the named "
+            "deviations. The real PythonASTOptimizer is wrapped while the bundled namespaces are compiled from source: every "
+            "changed module body is encoded structurally and TLC decides whether it is obtained by the allowed rewrites only "
+            "(otherwise which named deviation explains it). The C01 corpus and operator-specific programs are executed with "
+            "the pass on and off and must agree.",
+            "Trusted: TLC; the structural encoding of Python ASTs (pyast_enc.py: statements structured, expressions abstracted "
+            "to a hash where no operator call or native operator occurs below, `prior` = names declared global earlier in the "
+            "same function). Purity of an `if` test is judged by the specification from the encoded structure.",
+            "5/C15"),
     "C17": ("Order",
             "TLA+ spec Order.tla (order laws on all triples + stable-sort machine) checked by TLC; "
             "TLC-generated tables and sort behaviours replayed into real compare/=/sort/sort-by",
